@@ -115,8 +115,8 @@ Definition temp_finish (s : St) (x : temp_res) : St * option str :=
   end.
 
 (* a sequence of calls (true = TempFile, false = TempDir) sharing the filesystem and the generator;
-   when a call had to reseed (its outcome depends on the clock) the harness puts the generator
-   back to a known value before the next call: [resets] supplies those values *)
+   when a call had to reseed (its outcome depends on the clock) or failed, the harness puts the
+   generator back to a known value before the next call: [resets] supplies those values *)
 Fixpoint temp_calls (ostmp : str) (s : St) (g : tgen) (calls : list (bool * str * str)) (resets : list Z)
   : St * tgen * list (temp_res * option str * bool) :=
   match calls with
@@ -125,8 +125,9 @@ Fixpoint temp_calls (ostmp : str) (s : St) (g : tgen) (calls : list (bool * str 
     let '(s0, g1, x) := if isfile then temp_file ostmp s g dir pat else temp_dir ostmp s g dir pat in
     let '(s1, nm) := temp_finish s0 x in
     let reseeded := negb (Nat.eqb (tg_reseeds g1) (tg_reseeds g)) in
+    let failed := match x with TempOk _ _ => false | _ => true end in
     let '(g2, resets2) :=
-      if reseeded then match resets with
+      if reseeded || failed then match resets with
                        | v :: rs => (mkTG v (tg_seeds g1) (tg_reseeds g1), rs)
                        | [] => (g1, [])
                        end
